@@ -407,7 +407,7 @@ def check(col: Collector):
     from . import c10
     from .common import construct_tag
     with col.rule():
-        shared(col, "C15.R5", [c10._masks], select=lambda o: construct_tag(o) == "disabled-targets-zeroed",
+        shared(col, "C15.R5", [c10._masks], select=lambda o: construct_tag(o) in ("disabled-targets-zeroed", "disabled-targets-stay-zero"),
                why="the penalty of a row is that of the active targets under the row's masks: a disabled target (whatever its value, NaN included) "
                    "contributes exactly 0")
     with col.rule():
